@@ -169,3 +169,37 @@ package expr
 //@   property C13
 //@   requires m != nil && m.KeyType != nil && m.ElemType != nil
 //@   ensures* shape: result != nil && load(result) == mapPrefix + hashSpec(m.KeyType.Type, ignoreFields, ignoreNames, ignoreTags) + mapElemPrefix + hashSpec(m.ElemType.Type, ignoreFields, ignoreNames, ignoreTags)
+
+// The finalizers called on the payload, result and errors do not touch security data (ASSUMED frames).
+//@ func (*AttributeExpr).Finalize
+//@   trusted
+//@   modifies all
+//@   preserves MethodExpr.Requirements, MethodExpr.Service, ServiceExpr.Requirements, APIExpr.Requirements, RootExpr.API, global(Root), fieldsOf(SecurityExpr), fieldsOf(SchemeExpr), elems(*SecurityExpr), elems(*SchemeExpr)
+//@ func (*ResultTypeExpr).Finalize
+//@   trusted
+//@   modifies all
+//@   preserves MethodExpr.Requirements, MethodExpr.Service, ServiceExpr.Requirements, APIExpr.Requirements, RootExpr.API, global(Root), fieldsOf(SecurityExpr), fieldsOf(SchemeExpr), elems(*SecurityExpr), elems(*SchemeExpr)
+//@ func (*ErrorExpr).Finalize
+//@   trusted
+//@   modifies all
+//@   preserves MethodExpr.Requirements, MethodExpr.Service, ServiceExpr.Requirements, APIExpr.Requirements, RootExpr.API, global(Root), fieldsOf(SecurityExpr), fieldsOf(SchemeExpr), elems(*SecurityExpr), elems(*SchemeExpr)
+
+// Requirement inheritance: an explicit NoSecurity clears the requirements; own requirements win; otherwise the
+// service's, otherwise the API's requirements are copied.
+//@ macro reqsWF(rs) = (forall i int :: 0 <= i && i < len(rs) ==> rs[i] != nil && allocated(rs[i])) && (forall i int, j int :: 0 <= i && i < len(rs) && 0 <= j && j < len(rs[i].Schemes) ==> rs[i].Schemes[j] != nil && allocated(rs[i].Schemes[j]))
+//@ func (*MethodExpr).Finalize
+//@   property C06
+//@   requires m != nil && m.Service != nil && Root != nil && Root.API != nil
+//@   requires reqsWF(m.Requirements) && reqsWF(m.Service.Requirements) && reqsWF(Root.API.Requirements)
+//@   let own = old(m.Requirements)
+//@   let svc = old(m.Service.Requirements)
+//@   let api = old(Root.API.Requirements)
+//@   ensures* nosecurity: forall i int, j int :: 0 <= i && i < len(own) && 0 <= j && j < len(old(own[i].Schemes)) && old(own[i].Schemes[j].Kind) == NoKind ==> m.Requirements == nil
+//@   ensures* own.kept: len(own) > 0 && (forall i int, j int :: 0 <= i && i < len(own) && 0 <= j && j < len(old(own[i].Schemes)) ==> old(own[i].Schemes[j].Kind) != NoKind) ==> m.Requirements == own
+//@   ensures* inherits.service: len(own) == 0 && len(svc) > 0 ==> len(m.Requirements) == len(svc) && (forall i int :: 0 <= i && i < len(svc) ==> m.Requirements[i] != nil && m.Requirements[i].Scopes == old(svc[i].Scopes) && len(m.Requirements[i].Schemes) == len(old(svc[i].Schemes)))
+//@   ensures* inherits.api: len(own) == 0 && len(svc) == 0 && len(api) > 0 ==> len(m.Requirements) == len(api) && (forall i int :: 0 <= i && i < len(api) ==> m.Requirements[i] != nil && m.Requirements[i].Scopes == old(api[i].Scopes) && len(m.Requirements[i].Schemes) == len(old(api[i].Schemes)))
+//@   ensures* unsecured: len(own) == 0 && len(svc) == 0 && len(api) == 0 ==> len(m.Requirements) == 0
+//   -- merging the service errors may append in place to the method's own error list
+//@   loop 1 modifies elems(*ErrorExpr)
+//@   loop 4 invariant scan: !noreq && (forall i int, j int :: 0 <= i && i <= rangeindex#4 && 0 <= j && j < len(own[i].Schemes) ==> own[i].Schemes[j].Kind != NoKind)
+//@   loop 5 invariant scan.schemes: !noreq && 0 <= rangeindex#4 && rangeindex#4 < len(own) && r == own[rangeindex#4] && (forall j int :: 0 <= j && j <= rangeindex#5 ==> r.Schemes[j].Kind != NoKind) && (forall i int, j int :: 0 <= i && i < rangeindex#4 && 0 <= j && j < len(own[i].Schemes) ==> own[i].Schemes[j].Kind != NoKind)
